@@ -205,7 +205,10 @@ def run(ctx):
                 if n_api != n_direct:
                     ctx.violation('C19/api-ignores-table', 'traces(file, table) gave %s traces, TracesParser(table) %d'
                                   % (n_api, n_direct), {'kind': 'text', 'text': text[:2000]})
-    validate_streams(ctx, cases, 'full', 'c19streams', sig_prefix='C19/decode')
+    # a supplied table decides WHICH records are decoded and by which decoder (traces present / absent, their fields);
+    # the event lists of the traces are C04's
+    validate_streams(ctx, cases, 'full', 'c19streams', sig_prefix='C19/decode',
+                     own=lambda cl, cls: cl in ('raised', 'fields', 'missing-trace', 'spurious-trace', 'shape'))
     ctx.extra['code_to_spec'] = {'texts': nv, 'streams_under_supplied_tables': len(cases), 'listed_events': nlist}
     ctx.assumptions += ['lines are "hex-id name [anything]" (blank lines and line-breaking control characters inside '
                         'a line are outside the statement)', 'page-fault composites select nested records by a '
